@@ -54,6 +54,8 @@ pub struct Plan {
     pub check_probe_neutral: bool,
     /// ClassSweep: every scalar value (true) or only values within +-2 of a boundary (false)
     pub sweep_all: bool,
+    /// Clones: interleave up to this many further calls on each side
+    pub clone_depth: usize,
     /// also feed every input through a non-fused iterator that reports end of input after each
     /// possible prefix and then continues: the lexer must behave as on the prefix and stay ended
     pub pieces: bool,
@@ -520,16 +522,31 @@ impl Explorer<'_, '_> {
                 };
                 let whole = cut(&t);
                 let args = RunArgs { input, script, ctor: ctor0, probes: true, nones: 2, no_text: false, split: 0 };
-                // two runs of the same lexer on the same input give the same result
+                // two runs of the same lexer on the same input give the same result — also when
+                // the second run starts from a fresh thread (no state left behind by earlier runs of
+                // this or other lexers can matter)
                 let t_again = self.run_one(input, script, ctor0);
                 if t_again != t {
                     self.viol(input, script, ctor0, ("two runs on the same input differ".into(), format!("{:?}", t), format!("{:?}", t_again)));
+                }
+                let runner = self.l.runner;
+                let (i2, s2) = (input.to_string(), script.to_vec());
+                let t_fresh = std::thread::spawn(move || {
+                    let args = RunArgs { input: &i2, script: &s2, ctor: ctor0, probes: true, nones: 3, no_text: false, split: 0 };
+                    runner(&args, &Mode::Plain).0
+                })
+                .join();
+                self.c.executions += 1;
+                match t_fresh {
+                    Ok(tf) if tf == t => {}
+                    Ok(tf) => self.viol(input, script, ctor0, ("a run on a fresh thread differs from a run after other runs: lexing depends on state outside the lexer value".into(), format!("{:?}", tf), format!("{:?}", t))),
+                    Err(_) => self.viol(input, script, ctor0, ("a run on a fresh thread panicked".into(), "no panic".into(), "panic".into())),
                 }
                 for k in 0..=whole.len() {
                     self.c.clone_points += 1;
                     let rest: Trace = whole[k..].to_vec();
                     // all interleavings of up to 3 remaining calls on each side
-                    let na = rest.len().min(3);
+                    let na = rest.len().min(self.plan.clone_depth.max(1));
                     let mut patterns: Vec<Vec<bool>> = vec![];
                     fn gen(a: usize, b: usize, cur: &mut Vec<bool>, out: &mut Vec<Vec<bool>>) {
                         if a == 0 && b == 0 {
